@@ -68,14 +68,21 @@ let handle ws = match ws with
         if N.leb (section_size fs) own then "res=ok tx=- log=-"
         else (match role, kind with
           | "srv", "hdr" ->
-            Printf.sprintf "res=err:s:-:HeaderTooBig tx=%s log=-" (if N.leb (n_of_int 42) (spec_limit ps) then "+" else "-")
-          | "srv", _ -> "res=err:s:-:HeaderTooBig tx=- log=-"
-          | _, _ -> "res=err:s:-:HeaderTooBig tx=- log=stop:268")) in
+            (* log=~ : no connection close; whether and how the endpoint also aborts the rest of the stream is not constrained *)
+            Printf.sprintf "res=err:s:-:HeaderTooBig tx=%s log=~" (if N.leb (n_of_int 42) (spec_limit ps) then "+" else "-")
+          | "srv", _ -> "res=err:s:-:HeaderTooBig tx=- log=~"
+          | _, _ -> "res=err:s:-:HeaderTooBig tx=- log=~")) in
     obs_s o ^ " | " ^ spec
   | ["lim.tx"; role; own; p; ops] ->
+    let rflags = String.split_on_char '.' role in
+    let role = List.hd rflags in
+    let rhas f = List.mem f rflags in
+    let via_clone_now seen_s = rhas "clone0" || (rhas "clone1" && seen_s) in
     let own = n_of_string own in
     let pv = (match peer_of p with Some v -> v | None -> None) in
     let ps = ref None in
+    let seen_s = ref false in
+    let stream_via_clone = ref false in
     let have_stream = ref (role = "srv") in
     let m = Buffer.create 64 and s = Buffer.create 64 in
     List.iter (fun op ->
@@ -83,27 +90,32 @@ let handle ws = match ws with
       let spec tag fs =
         if N.leb (section_size fs) (spec_limit !ps) then tag ^ ":ok:+" else tag ^ ":err:s:-:HeaderTooBig:-" in
       (match op.[0] with
-       | 'S' -> ps := Some pv; Buffer.add_string m " S"; Buffer.add_string s " S"
+       | 'S' -> ps := Some pv; seen_s := true; Buffer.add_string m " S"; Buffer.add_string s " S"
        | 'H' ->
          let fs = if role = "srv" then response_fields (k ()) else request_fields (k ()) in
-         let r = if role = "srv" then send_response own !ps fs else send_request own !ps fs in
-         (match r with Sent _ -> have_stream := true | _ -> ());
+         let vc = via_clone_now !seen_s in
+         (* the settings the handle in use can see (the connection's cell, by the flow read from the source) *)
+         let r = if role = "srv" then send_response own (settings_seen_by (SServerStream (rhas "split")) !ps) fs
+                 else send_request own (settings_seen_by (SRequest vc) !ps) fs in
+         (match r with Sent _ -> (have_stream := true; stream_via_clone := vc) | _ -> ());
          Buffer.add_string m (" " ^ send_s "H" r); Buffer.add_string s (" " ^ spec "H" fs)
        | 'T' ->
          if not !have_stream then begin Buffer.add_string m " T:nostream"; Buffer.add_string s " T:nostream" end
          else begin
            let fs = trailer_fields (k ()) in
-           Buffer.add_string m (" " ^ send_s "T" (send_trailers own !ps fs)); Buffer.add_string s (" " ^ spec "T" fs) end
+           let h = if role = "srv" then SServerStream (rhas "split") else SClientStream (!stream_via_clone, rhas "split") in
+           Buffer.add_string m (" " ^ send_s "T" (send_trailers own (settings_seen_by h !ps) fs)); Buffer.add_string s (" " ^ spec "T" fs) end
        | _ -> Buffer.add_string m " ?"; Buffer.add_string s " ?")) (String.split_on_char ',' ops);
     "ok" ^ Buffer.contents m ^ " | ok" ^ Buffer.contents s
-  | ["lim.txw"; "cli"; own; p; k] ->
+  | ["lim.txw"; role; own; p; k] ->
+    let via_clone = List.mem "clone0" (String.split_on_char '.' role) in
     (* the SETTINGS are stored before the stream opens, i.e. before the limit is read and compared *)
     let own = n_of_string own in
     let pv = (match peer_of p with Some v -> v | None -> None) in
     let ps = Some pv in
     let fs = request_fields (int_of_string k) in
     let spec = if N.leb (section_size fs) (spec_limit ps) then "W:ok:+" else "W:err:s:-:HeaderTooBig:-" in
-    "ok " ^ send_s "W" (send_request own ps fs) ^ " | ok " ^ spec
+    "ok " ^ send_s "W" (send_request own (settings_seen_by (SRequest via_clone) ps) fs) ^ " | ok " ^ spec
   | ["lim.adv"; _; l] ->
     (* what the peer is told is the configured value (frame::Settings itself is C13's subject) *)
     "adv=" ^ l ^ " | adv=" ^ l
